@@ -472,7 +472,19 @@ func verifBodyC16(s *verifEngC, gc *check.C) {
 					}
 				}
 				if why == "" {
-					c.Violate("C16/refresh-outside-window", "refresh scheduled immediately (%s) although no window of the timer and no limit passed since the last refresh %s", N.Format("Mon 2006-01-02 15:04:05"), L.Format("Mon 2006-01-02 15:04:05"))
+					cls := "C16/refresh-outside-window"
+					// (the known mis-anchored sub-span of a split span crossing midnight
+					// also shows as "a window is open right now")
+					for tau := L.Add(time.Minute); !tau.After(now.Add(time.Minute)); tau = tau.Add(time.Minute) {
+						if verifInMisanchoredSplit(events, tau) {
+							cls = "C16/refresh-outside-window:split-span-crossing-midnight-anchored-a-day-early"
+							break
+						}
+						if tau.Sub(L) > 3*24*time.Hour {
+							break
+						}
+					}
+					c.Violate(cls, "refresh scheduled immediately (%s) although no window of the timer and no limit passed since the last refresh %s", N.Format("Mon 2006-01-02 15:04:05"), L.Format("Mon 2006-01-02 15:04:05"))
 				}
 			case verifInMisanchoredSplit(events, N):
 				c.Violate("C16/refresh-outside-window:split-span-crossing-midnight-anchored-a-day-early", "next refresh %s (%s) lies in no window of the timer: it is in the after-midnight part of a /N-split span crossing midnight, placed on the day the span starts instead of the following day (last refresh %s)", N.Format("2006-01-02 15:04:05"), N.Weekday(), L.Format("2006-01-02 15:04:05"))
